@@ -29,16 +29,17 @@ def parseBits (s : String) : Option (List Bool) :=
 def optInt (s : String) : Option (Option Int) :=
   if s == "" || s == "_" then some none else (s.toInt?).map some
 
-def fnOfList (l : List Int) : Nat → Int :=
-  let a := l.toArray
-  fun p => a.getD p 0
+/-- full-size arrays are kept as evaluated `Array`s between steps and handed to the model as functions;
+`@[noinline]` + strict array parameters keep the compiler from re-evaluating a whole history per lookup -/
+@[noinline] def fnOfArr (a : Array Int) : Nat → Int := fun p => a.getD p 0
+@[noinline] def maskOfArr (a : Array Bool) : Mask := fun p => a.getD p false
 
-def maskOfList (l : List Bool) : Mask :=
-  let a := l.toArray
-  fun p => a.getD p false
+def fnOfList (l : List Int) : Nat → Int := fnOfArr l.toArray
+def maskOfList (l : List Bool) : Mask := maskOfArr l.toArray
 
-/-- re-tabulate a mask (identity on `p < n`; keeps closures from nesting along a history) -/
-def tab (n : Nat) (m : Mask) : Mask := maskOfList ((List.range n).map m)
+/-- evaluate a mask on `0 … n-1` -/
+@[noinline] def evalMask (n : Nat) (m : Mask) : Array Bool := ((List.range n).map m).toArray
+@[noinline] def evalFn (n : Nat) (f : Nat → Int) : Array Int := ((List.range n).map f).toArray
 
 def showInts (l : List Int) : String := if l.isEmpty then "-" else ",".intercalate (l.map toString)
 def showNats (l : List Nat) : String := if l.isEmpty then "-" else ",".intercalate (l.map toString)
@@ -72,10 +73,10 @@ def parsePhase (s : String) : Option Phase :=
   | [n, sy, t] => (t.toNat?).map fun t => ⟨n, if sy == "" then none else some sy, t⟩
   | _ => none
 
-/-- `id~name~sym~tag/…` or `-` -/
+/-- `id~name~sym~tag&…` or `-` -/
 def parseEntries (s : String) : Option PhaseList :=
   if s == "-" then some []
-  else (sep s "/").mapM fun e =>
+  else (sep s "&").mapM fun e =>
     match sep e "~" with
     | [i, n, sy, t] => do
       let i ← i.toInt?; let t ← t.toNat?
@@ -86,12 +87,12 @@ def showPhase (p : Phase) : String :=
   p.name ++ "~" ++ (match p.sym with | some s => s | none => "") ++ "~" ++ toString p.tag
 
 def showEntries (d : PhaseList) : String :=
-  if d.isEmpty then "-" else "/".intercalate (d.map fun e => toString e.1 ++ "~" ++ showPhase e.2)
+  if d.isEmpty then "-" else "&".intercalate (d.map fun e => toString e.1 ++ "~" ++ showPhase e.2)
 
-/-- `name=1,2,3/name=…` or `-` -/
+/-- `name=1,2,3&name=…` or `-` -/
 def parseProps (n : Nat) (s : String) : Option (List (String × List Int)) :=
   if s == "-" then some []
-  else (sep s "/").mapM fun e =>
+  else (sep s "&").mapM fun e =>
     match sep e "=" with
     | [nm, vs] => do
       let vs ← parseIntList vs
@@ -148,22 +149,23 @@ def runC11 (args : List String) : String :=
       let keys ← keys.mapM parseKey
       let c : Ctx11 := ⟨⟨⟨ny, nx⟩, fnOfList pid, phases⟩, ⟨oy, ox, dy, dx⟩,
         props.map fun e => (e.1, fnOfList e.2)⟩
-      let m0 := maskOfList mask
-      let (_, outs) := keys.foldl (fun (acc : Mask × List String) k =>
-        match getItemC c.q c.b acc.1 k with
+      let a0 := mask.toArray
+      let (_, outs) := keys.foldl (fun (acc : Array Bool × List String) k =>
+        let cur := maskOfArr acc.1
+        match getItemC c.q c.b cur k with
         | .ok m' =>
-          let m' := tab n m'
+          let a' := evalMask n m'
           -- the index-level `getItem` (the one the theorems are about) must give the same map
-          let agree := match getItem c.b acc.1 k with
-            | .ok m2 => ids n m2 == ids n m'
+          let agree := match getItem c.b cur k with
+            | .ok m2 => evalMask n m2 == a'
             | .error _ => false
-          (m', acc.2 ++ [(if agree then "" else "LAYERS-DIFFER;") ++ observe11 c m'])
+          (a', acc.2 ++ [(if agree then "" else "LAYERS-DIFFER;") ++ observe11 c (maskOfArr a')])
         | .error e =>
-          let agree := match getItem c.b acc.1 k with
+          let agree := match getItem c.b cur k with
             | .ok _ => false
             | .error f => e == f
           (acc.1, acc.2 ++ [(if agree then "" else "LAYERS-DIFFER;") ++ "E=" ++ e.toString]))
-        (m0, [observe11 c m0])
+        (a0, [observe11 c (maskOfArr a0)])
       pure (" | ".intercalate outs)
     match r with
     | some s => s
@@ -175,7 +177,7 @@ def runC11 (args : List String) : String :=
 def parseOptList {α} (f : String → Option α) (s : String) : Option (Option (List α)) :=
   match s.toList with
   | ['N'] => some none
-  | '=' :: r => ((sep (String.ofList r) "/").mapM f).map some
+  | '=' :: r => ((sep (String.ofList r) "&").mapM f).map some
   | _ => none
 
 def parseOptLabel (s : String) : Option (Option String) := some (if s == "" then none else some s)
@@ -186,7 +188,7 @@ def parsePlForm (s : String) : Option (Option (Except XErr PhaseList)) :=
   match sep s "@" with
   | ["none"] => some none
   | ["L", ps, is] => do
-    let ps ← if ps == "-" then some [] else (sep ps "/").mapM parsePhase
+    let ps ← if ps == "-" then some [] else (sep ps "&").mapM parsePhase
     let is ← if is == "N" then some none else (parseIntList is).map some
     pure (some (.ok (PhaseList.ofList ps is)))
   | ["D", es] => do
@@ -236,7 +238,7 @@ def parseCmd (s : String) : Option Cmd :=
   | ["sel", v, k] => do let v ← v.toNat?; let k ← parseKey k; pure (.op (.select v k))
   | ["pid", v, x] => do let v ← v.toNat?; let x ← parseValue x; pure (.op (.setPhaseId v x))
   | ["prop", v, nm, x] => do let v ← v.toNat?; let x ← parseValue x; pure (.op (.setProp v nm x))
-  | ["add", ps] => do let ps ← (sep ps "/").mapM parsePhase; pure (.op (.plAdd ps))
+  | ["add", ps] => do let ps ← (sep ps "&").mapM parsePhase; pure (.op (.plAdd ps))
   | ["deli", i] => do let i ← i.toInt?; pure (.op (.plDel (.id i)))
   | ["deln", nm] => some (.op (.plDel (.name nm)))
   | ["ani"] => some (.op .plAddNotIndexed)
@@ -259,9 +261,10 @@ def observe12 (s : Sys) (err : String) (ret : String) : String :=
   ";".intercalate (fields ++ pf ++ vf)
 
 def tabSys (s : Sys) : Sys :=
-  { s with phaseId := fnOfList ((List.range s.n).map s.phaseId),
-           props := s.props.map fun e => (e.1, fnOfList ((List.range s.n).map e.2)),
-           views := s.views.map (tab s.n) }
+  let pid := evalFn s.n s.phaseId
+  let props := s.props.map fun e => (e.1, evalFn s.n e.2)
+  let views := s.views.map (evalMask s.n)
+  { s with phaseId := fnOfArr pid, props := props.map (fun e => (e.1, fnOfArr e.2)), views := views.map maskOfArr }
 
 def runC12 (args : List String) : String :=
   match args with
